@@ -20,23 +20,23 @@ CLAIMED = {
             TRUST, "DESIGN.md §4 C02, §9.6 round 5"),
     "C03": (SIM + ": two-party round trip (writer node, reader node, independently configured, medium = memory or SimDisk with benign faults) over all codes / parameters / value classes with raw sentinels and arbitrary bit offsets",
             "exploration",
-            "Value equality plus position equality against codeword extents measured from the writer's real output (marker bit), observed only through the correct decoding of everything that follows. Known finding: u8 buffered reader + decoding tables.",
+            "Value equality plus position equality against codeword extents measured from the writer's real output (marker bit), observed through the correct decoding of everything that follows and, after the last element, through bit_pos(). Known finding: u8 buffered reader + decoding tables.",
             TRUST + " Unary parts up to 2000 bits in ordinary values, 65 500-70 000 bits in one value of 300, 2^32 bits (sparse sink / source stubs) in one run of 100 000.", "DESIGN.md §4 C03, §9.6 round 5"),
     "C05": (SIM + ": differential reads on clones of the same reader (tables off / every table option / parameterless default) after seeded prefix histories; twin writers; diagnosed (reader, table) pairs measured from the library's real stderr",
             "exploration",
-            "Arbitrary images with a systematically cycling planted look-ahead pattern (every decode-table index of every table, both endiannesses, is required in the thorough tier) and valid streams around the table boundaries cut near the end of strict backends (failed-peek fallback); outcomes (value|error, position, next bits) must be identical across variants; encoders and length functions likewise.",
+            "Arbitrary images with a systematically cycling planted look-ahead pattern (every decode-table index of every table, both endiannesses, is required in the thorough tier) and valid streams around the table boundaries cut near the end of strict backends (failed-peek fallback); outcomes (value|error, position, next bits) must be identical across variants; encoders and length functions likewise. One run in 97: a user-defined reader with n = 1..=64 bits of look-ahead that calls check_tables(n); every table variant that was not diagnosed must equal the table-less read.",
             TRUST + " A tiny validity model keeps the bit-by-bit decoder inside its domain on arbitrary images.", "DESIGN.md §4 C05"),
     "C07": (SIM + ": histories with bit_pos() checked after every step and seeks to arbitrary targets over memory backends and WordAdapter/BufReader over SimDisk (benign faults invisible, injected seek errors must surface); lock-step fresh reader",
             "exploration",
-            "bit_pos equals the model position after every op (reads, peeks, skips, code reads with tables, io::Read, seeks); after a seek every value equals the model read from p; a quarter of the runs runs a fresh reader that consumed exactly p bits in lock-step. Scale: one run in 40 seeks and reads at positions up to 2^62 bits of a sparse stream (word stub or real WordAdapter over a sparse byte source).",
+            "bit_pos equals the model position after every op (reads, peeks, skips, code reads with tables, io::Read, seeks); after a seek every value equals the model read from p; a quarter of the runs runs a fresh reader that consumed exactly p bits in lock-step. Scale: one run in 40 seeks and reads at positions up to 2^62 bits of a sparse stream (word stub or real WordAdapter over a sparse byte source). A quarter of the device-backed runs creates the reader over a byte stream that is already positioned at word 1..3.",
             TRUST, "DESIGN.md §4 C07, §9.6 round 5"),
     "C08": (SIM + ": two-party copy histories (source reader with look-ahead pre-history, pre-filled destination writer u8..u128, copy_to/copy_from, continuation incl. peeks, table reads and further copies)",
             "exploration",
-            "Destination image = model (previous bits || next n source bits || later writes), source advanced by n, every continuation value equals the model. Measured reach: copies with more than one word / more than 64 bits buffered, n above the buffer, whole u128 words. Scale: copies of 65 000-90 000 bits (1 run in 200) and of more than 2^32 bits between sparse stubs (1 run in 100 000).",
+            "Destination image = model (previous bits || next n source bits || later writes), source advanced by n, every continuation value equals the model. Measured reach: copies with more than one word / more than 64 bits buffered, n above the buffer, whole u128 words. Scale: copies of 65 000-90 000 bits (1 run in 200) and of more than 2^32 bits between sparse stubs (1 run in 100 000). A quarter of the copies goes through the default copy_to / copy_from of the traits (pass-through wrappers standing for user-defined streams).",
             TRUST, "DESIGN.md §4 C08, §9.6 round 5"),
     "C09": (SIM + " with fault injection: producer crash = valid stream truncated after a backend word; strict readers over 6 strict backends incl. a stub failing with EOF or a hard error; zero-extended reader",
             "fault_enumeration",
-            "The cut is placed relative to measured codeword extents (items ending 0..2 words before, exactly at, or straddling the cut); items wholly inside must decode (incl. failed-peek table fallback), the first operation needing a bit beyond the cut must return Err, never a value; zero-extended readers see zeros and never fail. After the end-of-data error the reader is seeked back to the start of an earlier item and every item inside the data must decode again.",
+            "The cut is placed relative to measured codeword extents (items ending 0..2 words before, exactly at, or straddling the cut); items wholly inside must decode (incl. failed-peek table fallback), the first operation needing a bit beyond the cut must return Err, never a value; zero-extended readers see zeros and never fail. After the end-of-data error the reader is seeked back to the start of an earlier item and every item inside the data must decode again. Half of the byte-adapter runs end the byte stream inside a word (partial trailing word).",
             TRUST + " Nothing is asserted between the first Err and that seek (the state of a reader after a failed operation is not specified; see DESIGN.md §9.6 round 6).", "DESIGN.md §4 C09, §9.6 round 6"),
     "C11": (SIM + " with fault injection: real WordAdapter over a simulated byte device (SimDisk) with seeded fault plans (short reads/writes at every byte limit, Interrupted, Ok(0), hard errors, seek errors, full device, trailing partial word); conservation oracle over the recorded device history",
             "fault_enumeration",
@@ -44,12 +44,12 @@ CLAIMED = {
             TRUST + " Nothing is asserted about a stream between an error and the next successful seek. Word positions up to 2^62 bytes are exercised fault-free over a sparse byte source (1 run in 25); a word_pos() reported after a failed read/write (direct wrap) must equal the device byte position in words, rounded down or up.", "DESIGN.md §4 C11, §9.6 rounds 5-6"),
     "C12": (SIM + ": histories interleaving io::Write::write/write_all and io::Read::read of slices of every length class with bit operations at every bit offset, writer words u8..u128, all reader kinds",
             "exploration",
-            "The model stream gains / yields exactly the slice bytes in stream order at the current position; the call reports the whole slice; no panic. Scale: slices up to 70 001 bytes (1 slice in 250) and single slices / read buffers of 512 KiB-1 .. 1 MiB+7 (1 run in 750).",
+            "The model stream gains / yields exactly the slice bytes in stream order at the current position; the call reports the whole slice; no panic. Scale: slices up to 70 001 bytes (1 slice in 250) and single slices / read buffers of 512 KiB-1 .. 1 MiB+7 (1 run in 750). The address alignment of the slices and read buffers handed to the library (offset 0..7 from an 8-byte aligned address) is a scenario input.",
             TRUST, "DESIGN.md §4 C12, §9.6 round 5"),
     "C13": (SIM + ": seeded operation histories on the real in-memory word streams vs. array+cursor model, out-of-range reads/writes/seeks as injected faults",
             "exploration",
             "Seeded search over call histories (read/write/pos/set_pos/len/flush, <=40 calls) on all four in-memory word streams, five word types, owned and borrowed storage; every return value and the final contents are compared with an array+cursor reference model after each step.",
-            "Trusts the array+cursor model written from the property text; set-position targets include 2^k + small up to 2^64-1.",
+            "Trusts the array+cursor model written from the property text; set-position targets include 2^k + small, 2^63 +- small and values up to 2^64-1 (2^64-1200 for the zero-extended reader, so that following reads cannot overflow its cursor).",
             "DESIGN.md §4 C13"),
     "C14": (SIM + ": the same history on a bare stream and through CountBit*/DbgBit* wrappers created mid-stream, through every path the wrappers expose",
             "exploration",
